@@ -538,29 +538,40 @@ def propsOf (cfg : Cfg) (a : Attrs) : List (String × String) :=
       some (cutTag (String.ofList (kv.1.toList.drop propPrefix.length)), (strAttr cfg [kv] kv.1).getD "None")
     else none)
 
+/-- size of a population: rows of the array named like the population if there is one, else the attribute -/
+def popSize (id : String) (g : Leaf) : Except Err Int :=
+  match g.arrays.find? (fun a => a.name = id) with
+  | some a => .ok (a.rows.length : Int)
+  | none =>
+    match lookupAttr g.attrs "size" with
+    | some (.int n) => .ok n
+    | some .none => .error .typeError         -- `size >= 0` with None
+    | some (.str _) => .error .unmodelled
+    | none => .error .attributeError
+
+def popInsts (arrays : List Arr) : Except Err (List Inst) :=
+  match arrays with
+  | [] => .ok []
+  | [a] => decodeLocs a
+  | _ => .error .unmodelled
+
 /-- `start_group` + `parse_dataset` + `end_group` on a population group; also returns the component object that
     `handle_population` appends to the document -/
-def decodePop (cfg : Cfg) (top : List Comp) (g : Leaf) : Except Err (Pop × Option Comp) := do
-  let id ← match strAttr cfg g.attrs "id" with
-    | some s => pure s
-    | none => .error .unmodelled
-  let comp ← match strAttr cfg g.attrs "component" with
-    | some s => pure s
+def decodePop (cfg : Cfg) (top : List Comp) (g : Leaf) : Except Err (Pop × Option Comp) :=
+  match strAttr cfg g.attrs "id" with
+  | none => .error .unmodelled
+  | some id =>
+    match strAttr cfg g.attrs "component" with
     | none => .error .typeError
-  let size ← match g.arrays.find? (fun a => a.name = id) with
-    | some a => pure (a.rows.length : Int)
-    | none =>
-      match lookupAttr g.attrs "size" with
-      | some (.int n) => pure n
-      | some .none => .error .typeError         -- `size >= 0` with None
-      | some (.str _) => .error .unmodelled
-      | none => .error .attributeError
-  let insts ← match g.arrays with
-    | [] => pure []
-    | [a] => decodeLocs a
-    | _ => .error .unmodelled
-  .ok (⟨id, comp, some size, if insts.isEmpty then none else some "populationList", insts, propsOf cfg g.attrs⟩,
-       getById top comp)
+    | some comp =>
+      match popSize id g with
+      | .error e => .error e
+      | .ok size =>
+        match popInsts g.arrays with
+        | .error e => .error e
+        | .ok insts =>
+          .ok (⟨id, comp, some size, if insts.isEmpty then none else some "populationList", insts, propsOf cfg g.attrs⟩,
+               getById top comp)
 
 /-- what `parse_dataset` hands to `handle_connection` for one row -/
 structure RowD where
@@ -643,64 +654,98 @@ inductive Item where
   | nothing
 deriving Repr, DecidableEq, Inhabited
 
-def silentComp (projId : String) : Comp := ⟨"silent_synapses", "silentSyn_" ++ projId, "<generated>"⟩
+def silentComp (projId : String) : Comp := ⟨"silentSynapse", "silentSyn_" ++ projId, "<generated>"⟩
 
-/-- a projection group (`start_group`, the dataset, `end_group`/`finalise_projection`); second component: the
-    objects appended to the document (synapse, pre-synapse, generated silent synapse) in order -/
-def decodeProjLeaf (cfg : Cfg) (top : List Comp) (pops : List Pop) (g : Leaf) :
-    Except Err (Item × List (Option Comp)) := do
-  let id ← match strAttr cfg g.attrs "id" with
-    | some s => pure s
-    | none => .error .unmodelled
-  let typ := (strAttr cfg g.attrs "type").getD "projection"
-  let typ := if typ.length = 0 then "projection" else typ
-  let pre ← match strAttr cfg g.attrs "presynapticPopulation" with
-    | some s => pure s
-    | none => .error .unmodelled
-  let post ← match strAttr cfg g.attrs "postsynapticPopulation" with
-    | some s => pure s
-    | none => .error .unmodelled
-  let syn := match strAttr cfg g.attrs "synapse" with
-    | some s => s
-    | none => (strAttr cfg g.attrs "postComponent").getD ""
-  let preSyn := (strAttr cfg g.attrs "preComponent").getD ""
-  match g.arrays with
+structure PHdr where
+  id : String
+  typ : String
+  pre : String
+  post : String
+  syn : String
+  preSyn : String
+deriving Repr, DecidableEq, Inhabited
+
+/-- `start_group` on a projection group -/
+def projHdr (cfg : Cfg) (a : Attrs) : Except Err PHdr :=
+  match strAttr cfg a "id", strAttr cfg a "presynapticPopulation", strAttr cfg a "postsynapticPopulation" with
+  | some id, some pre, some post =>
+    let typ := (strAttr cfg a "type").getD "projection"
+    .ok { id := id, typ := if typ.length = 0 then "projection" else typ, pre := pre, post := post,
+          syn := match strAttr cfg a "synapse" with
+            | some s => s
+            | none => (strAttr cfg a "postComponent").getD "",
+          preSyn := (strAttr cfg a "preComponent").getD "" }
+  | _, _, _ => .error .unmodelled
+
+def chemItem (h : PHdr) (pops : List Pop) (wd : Bool) (rows : List RowD) : Except Err Item :=
+  if rows.isEmpty then .ok (.proj { id := h.id, pre := h.pre, post := h.post, syn := h.syn }) else
+  match findPop pops h.pre with
+  | .error e => .error e
+  | .ok prePop =>
+    match findPop pops h.post with
+    | .error e => .error e
+    | .ok postPop => .ok (.proj (buildProj h.id h.pre h.post h.syn prePop postPop wd rows))
+
+def gItem (cont : Bool) (h : PHdr) (syn preComp : String) (pops : List Pop) (rows : List RowD) : Except Err Item :=
+  if rows.isEmpty then .ok (if cont then .cproj { id := h.id, pre := h.pre, post := h.post }
+                            else .eproj { id := h.id, pre := h.pre, post := h.post }) else
+  match findPop pops h.pre with
+  | .error e => .error e
+  | .ok prePop =>
+    match findPop pops h.post with
+    | .error e => .error e
+    | .ok postPop =>
+      match buildGProj cont h.id h.pre h.post syn preComp prePop postPop rows with
+      | .error e => .error e
+      | .ok p => .ok (if cont then .cproj p else .eproj p)
+
+/-- the dataset of a projection group (`parse_dataset` → `handle_projection`, `handle_connection`) and
+    `end_group`/`finalise_projection`; second component: the objects appended to the document (synapse,
+    pre-synapse, generated silent synapse) in order -/
+def decodeProjBody (cfg : Cfg) (top : List Comp) (pops : List Pop) (h : PHdr) (arrays : List Arr) :
+    Except Err (Item × List (Option Comp)) :=
+  match arrays with
   | [] =>
     -- no dataset: `handle_projection` is never called; `finalise_projection` adds an empty projection for the
     -- chemical and electrical kinds only
-    if typ = "projection" then .ok (.proj { id := id, pre := pre, post := post, syn := syn }, [])
-    else if typ = "electricalProjection" then .ok (.eproj { id := id, pre := pre, post := post }, [])
+    if h.typ = "projection" then .ok (.proj { id := h.id, pre := h.pre, post := h.post, syn := h.syn }, [])
+    else if h.typ = "electricalProjection" then .ok (.eproj { id := h.id, pre := h.pre, post := h.post }, [])
     else .ok (.nothing, [])
   | [a] =>
-    let synObj := getById top syn
-    let preObj := if preSyn.length > 0 then getById top preSyn else none
-    let rows ← mapIdxE (decodeConnRow cfg a.cols) 0 a.rows
-    let wd := posGt (colIdx a.cols "weight") || posGt (colIdx a.cols "delay")
-    if typ = "projection" then
-      if rows.isEmpty then .ok (.proj { id := id, pre := pre, post := post, syn := syn }, [synObj, preObj]) else do
-      let prePop ← findPop pops pre
-      let postPop ← findPop pops post
-      .ok (.proj (buildProj id pre post syn prePop postPop wd rows), [synObj, preObj])
-    else if typ = "electricalProjection" then
-      if rows.isEmpty then .ok (.eproj { id := id, pre := pre, post := post }, [synObj, preObj]) else do
-      let prePop ← findPop pops pre
-      let postPop ← findPop pops post
-      let p ← buildGProj false id pre post syn "" prePop postPop rows
-      .ok (.eproj p, [synObj, preObj])
-    else if typ = "continuousProjection" then
-      let postId := match synObj with
-        | some c => c.id
-        | none => syn
-      let (preId, extra) := match preObj with
-        | some c => (c.id, [])
-        | none => ("silentSyn_" ++ id, [some (silentComp id)])
-      if rows.isEmpty then .ok (.cproj { id := id, pre := pre, post := post }, [synObj, preObj] ++ extra) else do
-      let prePop ← findPop pops pre
-      let postPop ← findPop pops post
-      let p ← buildGProj true id pre post postId preId prePop postPop rows
-      .ok (.cproj p, [synObj, preObj] ++ extra)
-    else .error .unmodelled
+    let synObj := getById top h.syn
+    let preObj := if h.preSyn.length > 0 then getById top h.preSyn else none
+    match mapIdxE (decodeConnRow cfg a.cols) 0 a.rows with
+    | .error e => .error e
+    | .ok rows =>
+      if h.typ = "projection" then
+        match chemItem h pops (posGt (colIdx a.cols "weight") || posGt (colIdx a.cols "delay")) rows with
+        | .error e => .error e
+        | .ok it => .ok (it, [synObj, preObj])
+      else if h.typ = "electricalProjection" then
+        match gItem false h h.syn "" pops rows with
+        | .error e => .error e
+        | .ok it => .ok (it, [synObj, preObj])
+      else if h.typ = "continuousProjection" then
+        let postId := match synObj with
+          | some c => c.id
+          | none => h.syn
+        let preId := match preObj with
+          | some c => c.id
+          | none => "silentSyn_" ++ h.id
+        let extra := match preObj with
+          | some _ => []
+          | none => [some (silentComp h.id)]
+        match gItem true h postId preId pops rows with
+        | .error e => .error e
+        | .ok it => .ok (it, [synObj, preObj] ++ extra)
+      else .error .unmodelled
   | _ => .error .unmodelled
+
+def decodeProjLeaf (cfg : Cfg) (top : List Comp) (pops : List Pop) (g : Leaf) :
+    Except Err (Item × List (Option Comp)) :=
+  match projHdr cfg g.attrs with
+  | .error e => .error e
+  | .ok h => decodeProjBody cfg top pops h g.arrays
 
 structure InD where
   id : Int
@@ -727,28 +772,36 @@ def mkInp (pop : Pop) (d : InD) : Inp :=
     seg := if d.seg ≠ 0 then some d.seg else none,
     frac := if d.frac ≠ 1/2 then some d.frac else none }
 
-def decodeILLeaf (cfg : Cfg) (top : List Comp) (pops : List Pop) (g : Leaf) :
-    Except Err (Item × List (Option Comp)) := do
-  let id ← match strAttr cfg g.attrs "id" with
-    | some s => pure s
-    | none => .error .unmodelled
-  let comp ← match strAttr cfg g.attrs "component" with
-    | some s => pure s
-    | none => .error .typeError
-  let pop ← match strAttr cfg g.attrs "population" with
-    | some s => pure s
-    | none => .error .unmodelled
-  match g.arrays with
+def buildIL (id comp pop : String) (p : Pop) (rows : List InD) : IList :=
+  { id := id, comp := comp, pop := pop,
+    inputs := (rows.filter (fun d => d.weight = 1)).map (mkInp p),
+    inputWs := (rows.filter (fun d => d.weight ≠ 1)).map (fun d => { mkInp p d with weight := some d.weight }) }
+
+def ilBody (top : List Comp) (pops : List Pop) (id comp pop : String) (arrays : List Arr) :
+    Except Err (Item × List (Option Comp)) :=
+  match arrays with
   | [] => .ok (.il { id := id, comp := comp, pop := pop }, [getById top comp])
   | [a] =>
-    let rows ← mapIdxE (decodeInpRow a.cols) 0 a.rows
-    if rows.isEmpty then .ok (.il { id := id, comp := comp, pop := pop }, [getById top comp]) else do
-    let p ← findPop pops pop
-    .ok (.il { id := id, comp := comp, pop := pop,
-               inputs := (rows.filter (fun d => d.weight = 1)).map (mkInp p),
-               inputWs := (rows.filter (fun d => d.weight ≠ 1)).map (fun d => { mkInp p d with weight := some d.weight }) },
-         [getById top comp])
+    match mapIdxE (decodeInpRow a.cols) 0 a.rows with
+    | .error e => .error e
+    | .ok rows =>
+      if rows.isEmpty then .ok (.il { id := id, comp := comp, pop := pop }, [getById top comp]) else
+      match findPop pops pop with
+      | .error e => .error e
+      | .ok p => .ok (.il (buildIL id comp pop p rows), [getById top comp])
   | _ => .error .unmodelled
+
+def decodeILLeaf (cfg : Cfg) (top : List Comp) (pops : List Pop) (g : Leaf) :
+    Except Err (Item × List (Option Comp)) :=
+  match strAttr cfg g.attrs "id" with
+  | none => .error .unmodelled
+  | some id =>
+    match strAttr cfg g.attrs "component" with
+    | none => .error .typeError
+    | some comp =>
+      match strAttr cfg g.attrs "population" with
+      | none => .error .unmodelled
+      | some pop => ilBody top pops id comp pop g.arrays
 
 def decodeOther (cfg : Cfg) (top : List Comp) (pops : List Pop) (g : Leaf) :
     Except Err (Item × List (Option Comp)) :=
